@@ -10,7 +10,7 @@ from analysis.rulelib import *
 from analysis.mir import leaves, calls_in, show
 
 EXPLANATION = __doc__
-FLOOR = 12
+FLOOR = 16
 VM = 'akd_core::verify::base::verify_membership'
 VN = 'akd_core::verify::base::verify_nonmembership'
 CH = 'proof.longest_prefix_children'
@@ -22,9 +22,66 @@ def norm_idx(p):
 
 
 def run(ctx):
-    ctx.count('functions_analysed', 2)
+    ctx.count('functions_analysed', 3)
     membership(ctx)
     nonmembership(ctx)
+    generation(ctx)
+
+
+def generation(ctx):
+    """prover/verifier agreement for non-membership proofs (completeness side, structure only): the server's proof
+    literal is {label: the queried label, longest_prefix: label of the node found by the LCP walk for that label,
+    children: [left, right] of that node in this order — present child as (its label, node_to_azks_value(child,
+    WithLeafEpoch)), absent child as (empty_label, empty_node_hash) —, membership proof: the one returned by the
+    same walk}; these are exactly the relations verify_nonmembership checks (O3–O6)."""
+    prog = ctx.prog
+    b = prog.fn_and_inner('akd::append_only_zks::Azks::get_non_membership_proof')
+    where = '%s:%s' % (b.file, b.line)
+    dirs = [arg(c, 2) for ev, c in find_events(b, 'TreeNode::get_child_node')]   # (evaluated first: expression memo is depth-bounded)
+    lits = [e for pos, e in ok_aggregates(b) if e[0] == 'agg' and e[1] == 'NonMembershipProof']
+    if len(lits) != 1:
+        ctx.ob('C05.GEN.literal', 'RF-SIB', False, b.path, where, 'get_non_membership_proof does not return one NonMembershipProof literal')
+        return
+    f = dict(lits[0][3])
+    walkc = lambda e: [c for c in calls_in(e, 'get_lcp_node_label_with_membership_proof') if access_path(arg(c, 2)) == 'label']
+    ok = access_path(f['label']) == 'label'
+    ctx.ob('C05.GEN.label', 'RF-SIB', ok, b.path, where, 'proof.label is the queried label' if ok else 'proof.label is %s' % show(f['label'])[:80])
+    lp = f['longest_prefix']
+    fetch = [c for c in calls_in(lp, 'get_from_storage')]
+    ok = split_fields(lp)[1].endswith('label') and len(fetch) == 1 and bool(walkc(arg(fetch[0], 1))) and show(arg(fetch[0], 1)).rstrip('}').endswith('.0') \
+        and has_call(arg(fetch[0], 2), 'get_latest_epoch')
+    ctx.ob('C05.GEN.anchor', 'RF-SIB', ok, b.path, where,
+           'longest_prefix is the label of the node returned by the LCP walk for the queried label, fetched as of the snapshot epoch' if ok else
+           'longest_prefix is not the LCP walk\'s node for the queried label: %s' % show(lp)[:160])
+    mp = f['longest_prefix_membership_proof']
+    ok = bool(walkc(mp)) and show(mp).endswith('.1')
+    ctx.ob('C05.GEN.membership', 'RF-SIB', ok, b.path, where, 'the anchor\'s membership proof comes from the same walk' if ok else
+           'anchor membership proof is %s' % show(mp)[:120])
+    # children: index i and direction both come from enumerate([Left, Right])
+    arr = ('Direction::Left', 'Direction::Right')
+    assigns = []
+    for pos, st in b.stmts():
+        if st.get('k') == 'assign' and len(st['p']) > 1 and any(isinstance(x, dict) and 'ix' in x for x in st['p'][1:]):
+            ix = [x for x in st['p'][1:] if isinstance(x, dict) and 'ix' in x][0]['ix']
+            assigns.append((pos, b._expr_local(ix, (), pos, 0), b._expr_rvalue(st['r'], pos, 0)))
+
+    def from_enum(e, comp):
+        t = show(e)
+        return t.endswith(comp) and 'enumerate' in t and t.index(arr[0]) < t.index(arr[1]) if arr[0] in t and arr[1] in t else False
+    present = [rv for pos, ix, rv in assigns if rv[0] == 'agg' and rv[1] == 'AzksElement' and has_call(dict(rv[3])['value'], 'node_to_azks_value')]
+    absent = [rv for pos, ix, rv in assigns if rv[0] == 'agg' and rv[1] == 'AzksElement' and has_call(dict(rv[3])['value'], 'empty_node_hash')
+              and has_call(dict(rv[3])['label'], 'empty_label')]
+    okp = False
+    if present:
+        pv = dict(present[0][3])
+        nv = next(calls_in(pv['value'], 'node_to_azks_value'))
+        okp = 'WithLeafEpoch' in show(arg(nv, 1)) and split_fields(pv['label'])[1].endswith('label') and \
+            has_call(pv['label'], 'get_from_storage') and has_call(arg(nv, 0), 'get_from_storage')
+    ok = len(assigns) >= 2 and all(from_enum(ix, '.0') for pos, ix, rv in assigns) and len(dirs) == 1 and from_enum(dirs[0], '.1') and okp and bool(absent)
+    ctx.ob('C05.GEN.children', 'RF-SIB', ok, b.path, where,
+           'children[i] for (i, dir) in [Left, Right]: present = (child label, node_to_azks_value(child, WithLeafEpoch)), absent = (empty_label, empty_node_hash)'
+           if ok else 'the children of the anchor are not emitted as [left, right] with the verifier\'s value/label conventions (assignments=%d present-ok=%s absent=%d dirs=%s)'
+           % (len(assigns), okp, len(absent), [show(d)[:60] for d in dirs]), key='RF-SIB|C05.GEN.children')
 
 
 def membership(ctx):
